@@ -1,4 +1,5 @@
 """C16 - results do not depend on the number representation."""
+import math
 from fractions import Fraction as F
 
 import numpy as np
@@ -109,7 +110,7 @@ def small_structure(draw):
     n = len(U) - p - 1
     dim = draw(st.sampled_from([0, 0, 2]))
     P = draw(gen.ctrlpoints(n, dim))
-    w = draw(gen.pos_weights(n)) if draw(st.integers(0, 3)) == 0 else None
+    w = draw(gen.pos_weights(n)) if draw(st.integers(0, 2)) == 0 else None  # one case in three is rational
     anum = "frac"
     if w is not None and draw(st.booleans()):
         w = draw(st.lists(st.integers(1, 9).map(F), min_size=n, max_size=n))  # Python-int weights
@@ -192,6 +193,15 @@ def run_op(case, num):
         z = bk[0] + (bk[1] - bk[0]) * t
         zf = oracle.frac(K(z))
         left, right = oracle.restrict_state(a, a.U[0], zf), oracle.restrict_state(a, zf, a.U[-1])
+        if a.w is not None and t != F(1, 2):
+            # the homogeneous scale of each operand is the caller's business: two times in three the weights of
+            # each piece are brought to whole numbers by a common factor (same control points, same curve), so
+            # that the int profiles really hand Python-int weights to the join (C16-k was caught in 2 seeds of 3)
+            for pc in (left, right):
+                den = 1
+                for x in pc.w:
+                    den = den * x.denominator // math.gcd(den, x.denominator)
+                pc.w = [x * den for x in pc.w]
         J = build_state_curve(left, cA["num"]) | build_state_curve(right, cA["num"])
         return [("state", lib.state_of(J))], [J.ctrlpoints, J.weights, list(J.knotvector)]
     if op in ("add", "sub", "mul", "div", "matmul"):
